@@ -4,6 +4,7 @@ import (
 	"fmt"
 	"math/rand"
 	"os"
+	"strings"
 	"sort"
 	"time"
 
@@ -204,7 +205,48 @@ func zoneShardCase(c *core.Ctx, r *rand.Rand) {
 	if r.Intn(4) == 0 {
 		z = zones[r.Intn(len(zones))]
 	}
-	withZone(c, z, func(_ *time.Location) {
+	withZone(c, z, func(_ *time.Location) { shardInZone(c, r, 0, calcs) })
+}
+
+// dstShardCase: the same real-shard write path + range lookups with time.Local = a DAYLIGHT-SAVING zone
+// of the tz database (America/New_York: all three calculators; Australia/Lord_Howe: month- and year-type
+// only — its day-type families overlap on the half-hour days, recorded findings), timestamps within a few
+// days (year-type: weeks) of an offset change of the year, so families and query ranges contain the 23-,
+// 25-, 23.5- and 24.5-hour days. Ops `zallt`-style: `gdfzt` carries the year's transitions and is diffed
+// against getDataFamiliesZ over the transition-list zone model; oracle keys get `@zonedst:<zone>`.
+func dstShardCase(c *core.Ctx, r *rand.Rand) {
+	defer func() { time.Local = time.UTC; zoneTag, zoneTrs = "", "" }()
+	zn := []string{"America/New_York", "Australia/Lord_Howe"}[r.Intn(2)]
+	loc, err := time.LoadLocation(zn)
+	if err != nil {
+		c.Branch("dst/tzdata-missing")
+		return
+	}
+	year := []int{1987, 2007, 2024, 2031}[r.Intn(4)]
+	off0, trs := zoneTransitions(loc, year)
+	if len(trs) == 0 {
+		return
+	}
+	parts := []string{fmt.Sprint(off0)}
+	for _, tr := range trs {
+		parts = append(parts, fmt.Sprint(tr[0]), fmt.Sprint(tr[1]))
+	}
+	time.Local = loc
+	zoneTag, zoneTrs = "dst:"+zn, strings.Join(parts, " ")
+	ks := calcs
+	if zn == "Australia/Lord_Howe" {
+		ks = calcs[1:]
+	}
+	tr := trs[r.Intn(len(trs))]
+	anchor := tr[0]*1000 + r.Int63n(2*day) - day
+	c.Branch("dst-shard/" + zn)
+	shardInZone(c, r, anchor, ks)
+}
+
+// shardInZone: body of zoneShardCase / dstShardCase (time.Local and zoneTag are set by the caller);
+// anchor != 0: timestamps stay around it (inside the year whose transitions the op carries)
+func shardInZone(c *core.Ctx, r *rand.Rand, dstAnchor int64, ks []calcT) {
+	{
 		dir, err := os.MkdirTemp("", "lvh-c13-*")
 		if err != nil {
 			c.Note("mkdtemp failed: " + err.Error())
@@ -220,7 +262,7 @@ func zoneShardCase(c *core.Ctx, r *rand.Rand) {
 			return
 		}
 		defer engine.Close()
-		k := calcs[r.Intn(len(calcs))]
+		k := ks[r.Intn(len(ks))]
 		iv := k.intervals[r.Intn(len(k.intervals))]
 		opt := &option.DatabaseOption{Intervals: option.Intervals{{Interval: timeutil.Interval(iv), Retention: timeutil.Interval(400 * 365 * day)}}}
 		if err := engine.CreateShards("db", opt, models.ShardID(1)); err != nil {
@@ -241,6 +283,10 @@ func zoneShardCase(c *core.Ctx, r *rand.Rand) {
 		span := map[string]int64{"day": 3 * hour, "month": 3 * day, "year": 70 * day}[k.name]
 		if r.Intn(3) == 0 {
 			span *= 12
+		}
+		if dstAnchor != 0 {
+			anchor = dstAnchor
+			span = map[string]int64{"day": 5 * hour, "month": 2 * day, "year": 20 * day}[k.name]
 		}
 		var ts []int64
 		for j := 0; j < 5; j++ {
@@ -277,7 +323,7 @@ func zoneShardCase(c *core.Ctx, r *rand.Rand) {
 			}
 			opGdf(c, shard, k, iv, qs, qe, ts)
 		}
-	})
+	}
 }
 
 // opGdf runs Shard.GetDataFamilies(type, [qs,qe]) on the real shard whose existing families are
@@ -290,6 +336,9 @@ func opGdf(c *core.Ctx, shard tsdb.Shard, k calcT, iv, qs, qe int64, ts []int64)
 	k0 := k
 	if zoneTag != "" { // same statement with time.Local = a fixed-offset zone: op `gdfz`, keys get the zone suffix
 		op = fmt.Sprintf("gdfz %s %s %d %d | %s", zoneTag, k.name, qs, qe, joinInts(ts))
+		if zoneTrs != "" { // daylight-saving zone: the op carries the year's transitions
+			op = fmt.Sprintf("gdfzt %s %d %d | %s | %s", k.name, qs, qe, joinInts(ts), zoneTrs)
+		}
 		k.name = k.name + "@zone" + zoneTag
 	}
 	if qs == qe {
